@@ -294,6 +294,8 @@ func c08Scripts(i int) [][][]string {
 		{{"AUTH", ""}, {"GET", k}},
 		{{"AUTH", P}, {"AUTH", "wrong"}, {"GET", k}},
 		{{"GET", k}, {"AUTH", P}, {"GET", k}},
+		{{"AUTH", "admin", "wrong"}, {"GET", k}},
+		{{"AUTH", "admin", P}, {"AUTH", P}, {"GET", k}},
 	}
 }
 
@@ -325,7 +327,7 @@ func c08SchedExplorer(cs c08Case, bound int) *sched.Explorer {
 				return
 			}
 			switch {
-			case cmd[0] == "AUTH" && cmd[1] == c08Pass:
+			case cmd[0] == "AUTH" && len(cmd) == 2 && cmd[1] == c08Pass:
 				if !o.Reply.Equal(resp.S("OK")) {
 					viol = append(viol, "good-password-refused\x00"+fmt.Sprintf("client %d: AUTH with the password answered %s", ci, o.Reply))
 					return
@@ -457,7 +459,7 @@ func init() {
 	fw.Register(&fw.Prop{
 		ID:          "C08",
 		Level:       "model_checking",
-		Rule:        "(STATE) breadth-first search over event histories on one connection of a server with requirepass=Secret1; events = AUTH with each candidate of a dictionary built around the password (empty, null bulk, every strict prefix, password+suffix, +NUL, case-swapped, embedded CRLF, leading space), two-argument forms with wrong/empty users, missing and surplus arguments, forms the statement leaves open (no expectation on the reply), and probes (GET/SET via the handler, PING/ECHO/CONFIG, SELECT, an application executor); canonical state = (IsAuthrized, UserName, Password, Database) read from the live connection object through Server.Conns() at every step plus the model's 'unlocked'; depth 4 (thorough 6) or closure. (SCHED) two connections (thorough three) each running one of 6 scripts through the real accept loop, every schedule within deviation bound 2; a handler call or non-error reply for a client that has not itself presented the password is a violation.",
+		Rule:        "(STATE) breadth-first search over event histories on one connection of a server with requirepass=Secret1; events = AUTH with each candidate of a dictionary built around the password (empty, null bulk, every strict prefix, password+suffix, +NUL, case-swapped, embedded CRLF, leading space), two-argument forms with wrong/empty users, missing and surplus arguments, forms the statement leaves open (no expectation on the reply), and probes (GET/SET via the handler, PING/ECHO/CONFIG, SELECT, an application executor); canonical state = (IsAuthrized, UserName, Password, Database) read from the live connection object through Server.Conns() at every step plus the model's 'unlocked'; depth 4 (thorough 6) or closure. (SCHED) two connections (thorough three) each running one of 8 scripts (one- and two-argument AUTH) through the real accept loop, every schedule within deviation bound 2; a handler call or non-error reply for a client that has not itself presented the password is a violation.",
 		Assumptions: []string{"AUTH '' P, AUTH default P and three-argument AUTH carry no expectation on the reply, only the gate invariant afterwards"},
 		Run:         c08Run,
 		Replay:      c08Replay,
